@@ -302,6 +302,14 @@ namespace pika::detail {
 #endif
         }
 
+        // zero threads is rejected wherever the value came from (command line, configuration
+        // or environment), not replaced by the minimal number of threads below
+        if (threads == 0)
+        {
+            throw pika::detail::command_line_error(
+                "Number of threads (--pika:threads, pika.os_threads) must be greater than 0");
+        }
+
         // make sure minimal requested number of threads is observed
         std::size_t min_os_threads =
             cfgmap.get_value<std::size_t>("pika.force_min_os_threads", threads);
